@@ -51,15 +51,15 @@ type exitRec struct {
 }
 
 type loopInfo struct {
-	header  *ssa.BasicBlock
-	blocks  map[*ssa.BasicBlock]bool
-	ordinal int
-	spec    *LoopSpec
+	header   *ssa.BasicBlock
+	blocks   map[*ssa.BasicBlock]bool
+	ordinal  int
+	spec     *LoopSpec
 	phis     []*ssa.Phi
 	headPhis map[*ssa.Phi]SV
-	head    *State // state after havoc, for decreases
-	pre     *State // state when the loop was reached (before havoc), for entry(...)
-	minPos  token.Pos
+	head     *State // state after havoc, for decreases
+	pre      *State // state when the loop was reached (before havoc), for entry(...)
+	minPos   token.Pos
 }
 
 type fnExec struct {
@@ -80,10 +80,11 @@ type fnExec struct {
 	safetyChecks   bool
 
 	// current block context
-	curR  Term
-	st    *State
-	live  bool
-	entry *State
+	curR      Term
+	sentinels []string
+	st        *State
+	live      bool
+	entry     *State
 
 	paramEntry    map[string]SV
 	loops         map[*ssa.BasicBlock]*loopInfo
@@ -385,9 +386,10 @@ func (fx *fnExec) cellValue(c ssa.Value) SV {
 	prefix := "fv$" + san(c.Name())
 	if g, isG := c.(*ssa.Global); isG {
 		prefix = fmt.Sprintf("gl%d$%s", fx.st.epoch, san(c.Name()))
-		if g.Pkg != nil && g.Pkg.Pkg.Path() == "io" && (g.Name() == "EOF" || g.Name() == "ErrUnexpectedEOF") {
-			// the sentinel errors of package io are never reassigned: one constant each, whatever happened to the heap
-			v := Sc{fx.ioSentinel(g.Name()), t}
+		if fx.v.errSentinel(g) {
+			// sentinel errors (package-level error variables set once from errors.New and never reassigned):
+			// one constant each, whatever happened to the heap
+			v := Sc{fx.sentinelTerm(g), t}
 			fx.st.cells[c] = v
 			fx.curR = saveR
 			return v
@@ -1753,13 +1755,16 @@ func (fx *fnExec) bindPhis(env *SpecEnv, li *loopInfo, from *ssa.BasicBlock) {
 	}
 }
 
-// ioSentinel: io.EOF / io.ErrUnexpectedEOF as distinct non-nil error constants.
-func (fx *fnExec) ioSentinel(name string) Term {
-	fx.declare("io.EOF", SInt)
-	fx.declare("io.ErrUnexpectedEOF", SInt)
-	if !fx.declared["$iosent"] {
-		fx.declared["$iosent"] = true
-		fx.assumps = append(fx.assumps, "(assert (and (not (= io.EOF 0)) (not (= io.ErrUnexpectedEOF 0)) (not (= io.EOF io.ErrUnexpectedEOF))))")
+// sentinelTerm: a sentinel error as a non-nil constant, distinct from every other sentinel (errors.New allocates).
+func (fx *fnExec) sentinelTerm(g *ssa.Global) Term {
+	n := "errs$" + g.Pkg.Pkg.Name() + "." + g.Name()
+	if !fx.declared[n] {
+		fx.declare(n, SInt)
+		fx.assumps = append(fx.assumps, "(assert (not (= "+n+" 0)))")
+		for _, o := range fx.sentinels {
+			fx.assumps = append(fx.assumps, "(assert (not (= "+n+" "+o+")))")
+		}
+		fx.sentinels = append(fx.sentinels, n)
 	}
-	return Term{"io." + name, SInt}
+	return Term{n, SInt}
 }
